@@ -118,7 +118,11 @@ func (a *AddressDecMap) Decode(r stdio.Reader) (err error) {
 	if err := perunio.Decode(r, &mapLen); err != nil {
 		return errors.WithMessage(err, "decoding map length")
 	}
-	*a = make(map[wallet.BackendID]Address, mapLen)
+	if mapLen < 0 {
+		return errors.New("negative map length")
+	}
+	// Do not trust the declared length with an allocation: grow with the data.
+	*a = make(map[wallet.BackendID]Address)
 	for i := range mapLen {
 		var idx int32
 		if err := perunio.Decode(r, &idx); err != nil {
@@ -140,8 +144,13 @@ func (a *AddressMapArray) Decode(r stdio.Reader) (err error) {
 	if err := perunio.Decode(r, &mapLen); err != nil {
 		return errors.WithMessage(err, "decoding array length")
 	}
-	*a = make([]map[wallet.BackendID]Address, mapLen)
+	if mapLen < 0 {
+		return errors.New("negative array length")
+	}
+	// Do not trust the declared length with an allocation: grow with the data.
+	*a = make([]map[wallet.BackendID]Address, 0)
 	for i := range mapLen {
+		*a = append(*a, nil)
 		if err := perunio.Decode(r, (*AddressDecMap)(&(*a)[i])); err != nil {
 			return errors.WithMessagef(err, "decoding %d-th address map entry", i)
 		}
